@@ -1,6 +1,7 @@
 package harness
 
 import (
+	"encoding/json"
 	"fmt"
 	"hash/fnv"
 	"os"
@@ -23,6 +24,47 @@ type WorkerArgs struct {
 	Dir      string   // scratch dir
 	Deadline time.Duration
 	Runs     int // override of total runs (0 = prop default)
+	// FromIdx: first absolute run index this (restarted) worker segment handles.
+	FromIdx int
+	// Progress: file in which the run about to start is announced, so that a
+	// worker killed by a fatal runtime error (out of memory, stack overflow) or
+	// by the hang watchdog can be attributed to the trace it was executing.
+	Progress string
+	// Emit prints a (partial or final) summary line.
+	Emit func(*Summary)
+}
+
+// progress announcement state of this process
+var (
+	progressPath  string
+	progressTrace *trace.Trace
+	progressIdx   int
+)
+
+// Progress is the content of the announcement file.
+type Progress struct {
+	Idx   int          `json:"idx"`
+	Trace *trace.Trace `json:"trace"`
+	Fault *trace.Fault `json:"fault,omitempty"`
+}
+
+func writeProgress(f *trace.Fault) {
+	if progressPath == "" {
+		return
+	}
+	b, _ := json.Marshal(Progress{Idx: progressIdx, Trace: progressTrace, Fault: f})
+	tmp := progressPath + ".tmp"
+	if os.WriteFile(tmp, b, 0o644) == nil {
+		_ = os.Rename(tmp, progressPath)
+	}
+}
+
+// AnnounceFault is called by fault-enumeration engines before each faulted
+// sub-run so that a process death is attributed to the exact fault.
+func AnnounceFault(f trace.Fault) {
+	if progressPath != "" {
+		writeProgress(&f)
+	}
 }
 
 func hash64(s string) uint64 {
@@ -76,12 +118,26 @@ func RunWorker(p *Prop, a WorkerArgs) *Summary {
 	inter := map[uint64]bool{}
 	seenSig := map[string]*Failure{}
 	const stateCap = 50000
-	for idx := a.Worker; idx < total; idx += a.Workers {
+	progressPath = a.Progress
+	lastEmit := time.Now()
+	first := a.Worker
+	for first < a.FromIdx {
+		first += a.Workers
+	}
+	for idx := first; idx < total; idx += a.Workers {
+		s.NextIdx = idx
+		if a.Emit != nil && time.Since(lastEmit) > 2*time.Second {
+			lastEmit = time.Now()
+			s.WallS = time.Since(start).Seconds()
+			a.Emit(snapshot(s, fps, states, inter, seenSig))
+		}
 		if a.Deadline > 0 && time.Since(start) > a.Deadline {
 			s.Infra = append(s.Infra, fmt.Sprintf("soft deadline reached after %d of %d runs", s.Evaluations, (total-a.Worker+a.Workers-1)/a.Workers))
 			break
 		}
 		t := GenTrace(p, a.Seed, a.Tier, idx)
+		progressTrace, progressIdx = t, idx
+		writeProgress(nil)
 		res := SafeExec(p, t, a.Dir)
 		if res.Infra != "" {
 			s.Infra = append(s.Infra, fmt.Sprintf("run %d: %s", idx, res.Infra))
@@ -153,19 +209,33 @@ func RunWorker(p *Prop, a WorkerArgs) *Summary {
 				continue // bounded effort per worker; the batch already fails
 			}
 			f := &Failure{Signature: sig, Detail: v.Detail, Seed: a.Seed, RunIndex: idx, OrigOps: len(t.Ops), Count: 1}
-			min, execs := Shrink(p, t, sig, a.Dir)
+			start := t
+			if nt := res.Narrow[sig]; nt != nil {
+				start = nt
+			}
+			min, execs := Shrink(p, start, sig, a.Dir)
 			f.Trace, f.Execs, f.MinOps = min, execs, len(min.Ops)
 			seenSig[sig] = f
 		}
 	}
+	s.NextIdx = total
+	s.Done = true
+	s.WallS = time.Since(start).Seconds()
+	return snapshot(s, fps, states, inter, seenSig)
+}
+
+// snapshot fills the set-valued fields of a copy of s.
+func snapshot(s *Summary, fps, states, inter map[uint64]bool, seenSig map[string]*Failure) *Summary {
+	c := *s
+	c.Fingerprints, c.StateHashes, c.Interleave, c.Failures = nil, nil, nil, nil
 	for h := range fps {
-		s.Fingerprints = append(s.Fingerprints, h)
+		c.Fingerprints = append(c.Fingerprints, h)
 	}
 	for h := range states {
-		s.StateHashes = append(s.StateHashes, h)
+		c.StateHashes = append(c.StateHashes, h)
 	}
 	for h := range inter {
-		s.Interleave = append(s.Interleave, h)
+		c.Interleave = append(c.Interleave, h)
 	}
 	sigNames := make([]string, 0, len(seenSig))
 	for k := range seenSig {
@@ -173,10 +243,9 @@ func RunWorker(p *Prop, a WorkerArgs) *Summary {
 	}
 	sort.Strings(sigNames)
 	for _, k := range sigNames {
-		s.Failures = append(s.Failures, *seenSig[k])
+		c.Failures = append(c.Failures, *seenSig[k])
 	}
-	s.WallS = time.Since(start).Seconds()
-	return s
+	return &c
 }
 
 // ScratchDir creates a private scratch directory on tmpfs.
